@@ -13,6 +13,7 @@ for d in seeded/${1:-*}/; do
   case "$n" in
     C01c-*) chk=C03 ;;
     C10b-*|C10c-*) chk=C12 ;;
+    C10d-*) chk=C13 ;;
     C12d-*) chk=C03 ;;
     *) chk=$prop ;;
   esac
